@@ -11,7 +11,8 @@ before the program model is built - so that the rules see through such edits:
      the arguments, `return` turned into assignment by nesting the continuation)
   T  new single-definition temporaries are replaced by their defining expression where that is order-safe
      (reaching-definition check on the CFG)
-  I  `x = a if c else b` / `return a if c else b` are rewritten as if statements
+  I  `x = a if c else b` / `return a if c else b` (and the tuple-index spelling `x = (b, a)[c]` of literals) are
+     rewritten as if statements
 
 "New" means: not in sa/baseline_symbols.json (tools/gen_baseline_symbols.py), the symbol table of the tree the
 rules were confirmed on.  Baseline symbols are never touched, so on the baseline tree only I applies.  Every
@@ -865,9 +866,15 @@ class ModuleCanon(object):
                     self._ifexp_body(sub, q)
             for h in getattr(st, "handlers", []) or []:
                 self._ifexp_body(h.body, q)
+            if isinstance(st, (ast.Assign, ast.Return)) and isinstance(st.value, ast.Subscript) and isinstance(st.value.value, ast.Tuple) \
+                    and len(st.value.value.elts) == 2 and isinstance(st.value.slice, (ast.Compare, ast.BoolOp)) \
+                    and all(is_literal(x) for x in st.value.value.elts):
+                # (a, b)[cond]  ==  b if cond else a     (a, b literals: nothing else is evaluated)
+                tv = st.value
+                st.value = ast.copy_location(ast.IfExp(test=tv.slice, body=tv.value.elts[1], orelse=tv.value.elts[0]), tv)
             if isinstance(st, (ast.Assign, ast.Return)) and isinstance(st.value, ast.IfExp):
                 ie = st.value
-                if isinstance(st, ast.Assign) and not all(isinstance(t, (ast.Name, ast.Attribute)) for t in st.targets):
+                if isinstance(st, ast.Assign) and not all(isinstance(t, (ast.Name, ast.Attribute, ast.Subscript)) for t in st.targets):
                     i += 1
                     continue
 
